@@ -38,6 +38,7 @@ type Contract struct {
 	Key      string // canonical function key within its package, e.g. "(*NativeIterator).Merge"
 	Pkg      string // package path
 	Requires []Clause
+	Assumes  []Clause // assumed when the body is verified, not checked at call sites (environment assumptions, listed in the evidence)
 	Ensures  []Clause
 	Lets     []Clause // Label = name
 	Modifies []string
@@ -75,6 +76,7 @@ type SpecFunc struct {
 	Params []string
 	Body   ast.Expr
 	Text   string
+	Fact   ast.Expr // "specfact name(x): e": a consequence of the definition, assumed wherever the function is used opaquely
 	Opaque bool // relational mode may treat it as an uninterpreted function of its slice argument
 }
 
@@ -377,6 +379,21 @@ func (cs *ContractSet) loadFile(path, repoDir string) error {
 			cur.Params = fieldsComma(m[3])
 			cur.Results = fieldsComma(m[4])
 			cs.ByKey["|"+key] = cur
+		case "specfact":
+			// specfact name(a, b): expr
+			m := regexp.MustCompile(`^([A-Za-z_][A-Za-z0-9_]*)\s*\(([^)]*)\)\s*:\s*(.*)$`).FindStringSubmatch(rest)
+			if m == nil {
+				return fmt.Errorf("%s:%d: bad specfact %q", path, lineNo, body)
+			}
+			ex, err := parser.ParseExpr(rewriteImplies(m[3]))
+			if err != nil {
+				return fmt.Errorf("%s:%d: specfact %s: %v", path, lineNo, m[1], err)
+			}
+			if sf := cs.Specs[m[1]]; sf != nil {
+				sf.Fact = ex
+			} else {
+				return fmt.Errorf("%s:%d: specfact for unknown spec %s", path, lineNo, m[1])
+			}
 		case "lemma":
 			cur = nil
 			curLemma = &Lemma{Name: rest, Pkg: pkgPath, File: path, Line: lineNo}
@@ -417,6 +434,15 @@ func (cs *ContractSet) loadFile(path, repoDir string) error {
 			}
 			cur.Raw = append(cur.Raw, body)
 			switch word {
+			case "assumes":
+				c, err := parseClause(rest, path, lineNo)
+				if err != nil {
+					return err
+				}
+				if c.Label == "" {
+					c.Label = fmt.Sprintf("a%d", len(cur.Assumes))
+				}
+				cur.Assumes = append(cur.Assumes, c)
 			case "requires", "ensures":
 				c, err := parseClause(rest, path, lineNo)
 				if err != nil {
